@@ -579,6 +579,8 @@ def run(rep):
     supplementary_names_rule(rep)
     attr_identity_rule(rep)
     replace_self_rule(rep)
+    from . import C14
+    C14.delete_data_rule(rep, "C13.i")
     from ..engines import arrays
     arrays.soh_rule(rep, f, "C13.d", lambda fn: "/dom/impl/" in fn["file"])
     diag.run(rep, f, "C13")
